@@ -42,7 +42,15 @@ def record(job):
     for i, p in enumerate(perm):
         inv[p] = i
     pts = [rec["v"][p] for p in perm]
-    verts = np.array(fl(pl.points(pts)), dtype=float)
+    coords = pts
+    if job.get("morph"):
+        # the lattice polytope of the trace (pts) is the combinatorial type; the object is built from a member of the same
+        # one-parameter family whose distinguishing feature is much smaller: vertex `frm + lam * (to - frm)` instead of `to`
+        from fractions import Fraction as F
+        m = job["morph"]
+        lam = F(m["lam"][0], m["lam"][1])
+        coords = [[F(m["frm"][k]) + lam * (F(p[k]) - F(m["frm"][k])) for k in range(3)] if list(p) == list(m["to"]) else p for p in pts]
+    verts = np.array(fl(pl.points(coords)), dtype=float)
     tr = {"tid": job["tid"], "pts": pts, "kind": kind, "events": [], "given": []}
     try:
         if kind == "convex":
@@ -153,10 +161,18 @@ def run(ctx, recs):
             pl = pal[(h(r["v"], ctx.seed) + len(kind)) % len(pal)]
             jobs.append({"rec": r, "pl": pl.to_json(), "seed": ctx.seed * 1000 + k * 3 + len(kind),
                          "kind": kind, "tid": len(jobs)})
+    # nearly flat ridges: the cube with one corner pushed out along the diagonal has nine facets for EVERY positive push; the
+    # recorded structure of the object with a push of 1e-3 .. 1e-8 of the edge must be that of the lattice member of the family
+    from . import convex_driver as cd
+    for r in [x for x in cd.emit(ctx, "Lifted", 8, minpts=8) if len(x["v"]) == 8]:
+        for i, lam in enumerate(([1, 1], [1, 1000], [1, 250000], [1, 10 ** 8])):
+            for pl in (pal[0], pal[2], pal[3]):
+                jobs.append({"rec": r, "pl": pl.to_json(), "seed": ctx.seed * 1000 + 7 * i + len(jobs), "kind": "convex", "tid": len(jobs),
+                             "morph": {"to": [3, 3, 3], "frm": [2, 2, 2], "lam": lam}})
     traces = pmap(record, jobs)
     good = []
     for job, tr in zip(jobs, traces):
-        tags = [job["kind"], "nv%d" % len(job["rec"]["v"])]
+        tags = [job["kind"], "nv%d" % len(job["rec"]["v"])] + (["nearly_flat_ridge"] if job.get("morph") else [])
         if "error" in tr:
             ctx.violation({"cls": "Polyhedron" if job["kind"] != "convex" else "ConvexPolyhedron",
                            "obs": {"convex": "construct", "sort": "sort_faces", "merge": "merge_faces"}[job["kind"]],
